@@ -19,20 +19,26 @@ CHECKS = {
          "path-sensitive MIR summaries + decision tables + polynomial identity", "5/C01"),
  "C02": ("other", "Structural: lerp end points reduce to a / b under bit-exact rewriting for all 11 scalar impls; zero-length "
          "segments return the start value; the hold-at-100% rule on exact cycle multiples; Ended maps to the constant 1.0/0.0; "
-         "phase mapping table of prepare_frame. Not decided: 'few ulps' at interior keyframes.",
+         "phase mapping table of prepare_frame; every sub-timeline with data ends with a held frame at 100%, the lookup holds the "
+         "last frame, and the generated timeline searches the builder arguments' own boundary table. Not decided: 'few ulps' at "
+         "interior keyframes.",
          "value-graph exact-IEEE rewriting + decision tables", "5/C02"),
  "C03": ("other", "Range [0,1] of the position is PROVEN by interval analysis of every feasible row of get_position (D finite > "
-         "0); mirror symmetry and end-threshold = reported duration are polynomial identities; not-started test; "
+         "0); mirror symmetry and end-threshold = reported duration are polynomial identities; not-started test; one clock (after "
+         "the not-started test the time is used only through time - delay); every finite repeat variant can end; "
          "configuration->TimeScale->getter flow incl. generated accessors. Not decided: linear rise / periodicity as numeric "
          "relations over all f32 times.", "interval abstract interpretation + polynomial normal form + dataflow", "5/C03"),
  "C04": ("other", "Decision table of set_state (helpers inlined): same-state row has no effect; every other row sets the state "
          "and ends with one update at the final time; restart rows blend from the live current values and reset time; resume "
          "takes time from the record only; entering another animated state discards the record. These are the only ways "
-         "a jump can arise at set_state. Not decided: float equality of values.",
+         "a jump can arise at set_state. Fail-closed: every row with an effect has established a different state, rows decide "
+         "whether the target / the interrupted state is animated; the blend reaches every merged component and every generated "
+         "sub-timeline; evaluation honours the blend before the start. Not decided: float equality of values.",
          "path-sensitive decision table over MIR", "5/C04"),
  "C05": ("other", "Complete transition relation of the animator: set_state table rows (pause record contents, untouched rows, "
          "discard rule), constructor / builder parameter-to-field map, getters, MapLike impl, and an effects analysis showing no "
-         "other function writes the five state fields - so a row assertion is an assertion on every step of every history. "
+         "other function writes the five state fields - so a row assertion is an assertion on every step of every history; the "
+         "transition rules of C04, the advance rules of C06 and 'a blend replaces the start override' are included. "
          "Not decided: the values themselves.", "decision table + effects (field writers) analysis", "5/C05"),
  "C06": ("other", "Effect and flow analysis of advance: the accumulator becomes old + exact_conversion(elapsed) (or saturates), "
          "no branch depends on the step size, no other state field is written, values are recomputed from the absolute "
@@ -40,11 +46,14 @@ CHECKS = {
          "per-step f32->Duration rounding the property allows.", "dataflow / effects analysis on MIR summaries", "5/C06"),
  "C07": ("other", "is_ended is true without timeline and otherwise the canonical literal duration <= time; merged duration is "
          "a maximum over all components with a natural comparator; the end test of the position code agrees with "
-         "get_duration and INFINITY iff Repeat::Infinite. Not decided: float behaviour exactly at the end instant of "
+         "get_duration and INFINITY iff Repeat::Infinite; terminal values do not depend on the start override (every property "
+         "has its own frame at 100%, override only for frame 0). Not decided: float behaviour exactly at the end instant of "
          "multi-cycle timelines.", "MIR summaries + comparator/fold idiom tables + polynomial identity", "5/C07"),
  "C10": ("other", "Truth table of the override-enable flag (exactly !repeating && !reversing while active, on before the "
          "start, off after the end), override frame replaces only frame 0 when enabled and present, loop-state terms of "
-         "get_position per row. Not decided: twin equality as a value statement.", "decision tables over MIR", "5/C10"),
+         "get_position per row; merged timelines hand start_with to and evaluate every component; generated start_with / update "
+         "reach every animated property on every path with a frame. Not decided: twin equality as a value statement.",
+         "decision tables over MIR", "5/C10"),
  "C11": ("other", "Typestate/dataflow: in every constructor of TimelineBuilderArguments the keyframes are sorted by a total "
          "ascending comparator on the position and everything derived from the keyframe order (boundary table) is derived "
          "from the sorted vector; generated build takes frames and table from the same arguments; keyframe() only appends.",
@@ -64,7 +73,9 @@ CHECKS = {
          "reachable from the public API of the four anchored files is enumerated from MIR and must be discharged on every "
          "path (guard dominance, max(x,c)-c, successful-get => index < len, cast ranges, object invariant with checked "
          "premises, divisor = cycle duration or guarded by == 0); thorough tier compares debug and release MIR. Not decided: "
-         "overflow to inf of products of extreme finite durations.", "panic-site enumeration with per-path discharge", "5/C20"),
+         "overflow to inf of products of extreme finite durations. Float lerp intermediates are sub-convex combinations of the two "
+         "values (no overflow for finite values); a value narrowed with `as f32` is reported (known finding F8).",
+         "panic-site enumeration with per-path discharge", "5/C20"),
  "C08": ("other", "Write set of the generated update on every witness struct shape and the repository's own derive uses: only "
          "animated fields of the target are stored, each store dominated by the Some arm of the same-named sub-timeline, "
          "nothing before prepare_frame returned Some; the #[animate] filter selects exactly the marked fields; no data => "
@@ -89,7 +100,8 @@ CHECKS = {
          "(1..6 fields, six numeric types + glam, attribute subsets, visibilities, remote proxies with reordered/extra fields): "
          "keyframe data fields, setters, keyframe_from/values_from, build wiring (getter per field, default 0% value, easing), "
          "update wiring and write set, start_with, accessors, KeyframeBuilder::build/easing, TimelineOrBuilder wrappers, "
-         "visibility and target type.", "structural validation of generated MIR against the generator's description", "5/C17"),
+         "visibility and target type; builder setters -> time scale -> getters -> generated accessors.",
+         "structural validation of generated MIR against the generator's description", "5/C17"),
  "C18": ("other", "Decision table of one iteration of animate::<T>: disabled rows have no effect; position only grows by "
          "time.delta(), exactly when the final state of the frame is not Ended; state stores only move forward with the right "
          "guards and without a frame of delay; every frame storing Ended evaluates the timeline on the target; exactly one "
